@@ -1,3 +1,4 @@
+mod ops_diag;
 mod ops_eval;
 mod ops_sort;
 mod ops_lex;
@@ -40,6 +41,7 @@ fn dispatch(line: &str) -> String {
         "span" => ops_span::handle(args),
         "eval" => ops_eval::handle(args),
         "hist" => ops_hist::handle(args),
+        "diag" => ops_diag::handle(args),
         "sort" => ops_sort::handle(args),
         "lex" => ops_lex::handle(args),
         "parse" => ops_parse::handle(args),
